@@ -177,3 +177,11 @@ also("C13", "ESP rule on read failures (shared with C14.R8)", "Also decides that
 also("C14", "struct fields as path-state cells", "A workspace kept in a field of an attempt record is followed through the record's methods.")
 also("C16", "history rule on the bytes handed to binary parsers", "Also decides that a supplied quote reaches the binary attestation parsers without a byte-normalising step.")
 also("C19", "who-may-call rule on WriteByte in the scanner", "Also decides that decoded code points are appended as text (WriteRune).")
+
+# rules added after the round-11 seeds and finding F24
+also("C06", "edge rule on the supported-count table", "Also decides that the table of all supported VMSA counts stands in for the request only when the request names no count.")
+also("C07", "guarded-call rule on the dependency's certificate-table parser; type-assertion rule", "Also decides that go-sev-guest's certificate-table parser is only reached behind the 64-bit range check (F24) and that no single-result type assertion is made on an input-decided dynamic type.")
+also("C08", "constant-bound rule on package-level table lookups", "Also decides that non-constant indices into package-level arrays are bounded below the array length.")
+also("C10", "open-flag rule on key persistence", "Also decides that the file-backed key manager stores the key it just created (no silent keep of an existing file).")
+also("C14", "ESP at-most-once rule on workspace requests", "Also decides that a workspace is requested at most once per attempt.")
+also("C18", "ESP error-propagation rule", "Also decides that a codec function fails when one of its steps failed, and that errors are discarded only where the callee cannot fail.")
